@@ -97,6 +97,11 @@ def rat(v):
     return [n, d], x
 
 
+# time units per second on the specification's axis: 1 by default; a scenario without any timeframe may
+# run on a finer axis (quarter seconds) -- the specification's lifespan arithmetic is unit-free
+SUB = 1
+
+
 def ts_of(t, base):
     if t is None:
         return NO_TS
@@ -108,7 +113,7 @@ def ts_of(t, base):
 
         t = t.astimezone(timezone.utc)
     delta = t.replace(tzinfo=None) - base
-    return int(delta.days * 86400 + delta.seconds)
+    return int(delta.days * 86400 + delta.seconds) * SUB + (delta.microseconds * SUB) // 1_000_000
 
 
 def candle(c, base):
